@@ -120,6 +120,8 @@ def gen_op(rng, sim, weights):
             sim.n = len(sim.tlids)
         elif k == "remove":
             sim.n = max(0, sim.n - 1)
+        if uris is not None and rng.random() < 0.4:
+            return [k, tlids, uris, rng.choice(["name", "genre", "comment"])]   # the tracks named by another field
         return [k, tlids, uris]
     if k == "shuffle":
         shape = rng.weighted([("all", 2), ("range", 4), ("edge", 2)])
